@@ -7,7 +7,7 @@ Import ListNotations.
 Fixpoint ownf (q : nat) (p : pc) : nat :=
   match p with
   | PLk q' | PNr q' _ | PPing q' _ | PUse q' _ | PUseSend q' _ | PFv q' | PFvR q' _ _ | PExp q' _ | PExpSend q' _
-  | PWait q' | PErr q' | PFlt q' | PUfs q' _ | PUfsR q' _ _ | PNs q' | PLd1 q' _ | PLd2 q' _
+  | PWait q' _ | PErr q' | PFlt q' | PUfs q' _ | PUfsR q' _ _ | PNs q' | PLd1 q' _ | PLd2 q' _
   | LWWait q' _ | LWErr q' _ | LWOk q' _ | RSSleep q' _ | RSSend q' => eqn q' q
   | TEntry p' => ownf q p'
   | _ => 0
